@@ -124,6 +124,41 @@ func c12Scenarios(tier string) []schedScenario {
 		}
 		add(fmt.Sprintf("P2 two jumps to one mark/N=%d/bound=%d", n, bound), "two-jumps", stmts, n, want, bound, 150*time.Second)
 	}
+	// P2b/P2c: two jumps to one mark with a traveler that needs several passes, so that re-entering the
+	// loop late (after the closing signal has already come back from the other jump) is observable:
+	// P2b selects the jump by parity (an even traveler always returns through the second jump),
+	// P2c by the counter (first pass through the first jump, later passes through the second)
+	for _, n := range []int{1, 2} {
+		if n == 2 && !thorough {
+			continue
+		}
+		bound, budget := 2, 120*time.Second
+		if thorough {
+			bound, budget = 3, 20*time.Minute
+		}
+		stmts := []*gripql.GraphStatement{markS("a"), incS("c"), hasS(gripql.Lt("c", 4.0)),
+			jumpS("a", gripql.Eq("odd", 1.0), true), jumpS("a", gripql.Eq("odd", 0.0), true)}
+		var want []string
+		for i := 0; i < n; i++ {
+			for c := 1; c < 4; c++ {
+				want = append(want, fmt.Sprintf("v%d/%d", i, c))
+			}
+		}
+		add(fmt.Sprintf("P2b two jumps, three passes/N=%d/bound=%d", n, bound), "two-jumps", stmts, n, want, bound, budget)
+		stmts = []*gripql.GraphStatement{markS("a"), incS("c"),
+			jumpS("a", gripql.Lt("c", 2.0), true), jumpS("a", gripql.And(gripql.Gte("c", 2.0), gripql.Lt("c", 4.0)), true)}
+		want = nil
+		for i := 0; i < n; i++ {
+			// passes c=1 (first jump), c=2 and c=3 (second jump) return to the mark; every pass also leaves
+			// the pipeline through the emitting jumps: c=1 is emitted by the first jump and its copy is not
+			// taken by the second (c<2), so it reaches the output; c=2,3 pass the first jump and are emitted
+			// by the second; c=4 passes both jumps
+			for c := 1; c <= 4; c++ {
+				want = append(want, fmt.Sprintf("v%d/%d", i, c))
+			}
+		}
+		add(fmt.Sprintf("P2c two jumps by counter/N=%d/bound=%d", n, bound), "two-jumps", stmts, n, want, bound, budget)
+	}
 	// P3: forward jump: jump(skip, odd, emit=false).increment(c).mark(skip): odd travelers skip the increment
 	for n := 0; n <= 2; n++ {
 		stmts := []*gripql.GraphStatement{jumpS("skip", gripql.Eq("odd", 1.0), true), incS("c"), markS("skip")}
